@@ -35,7 +35,9 @@ def parse (s : List Char) : Option (List UInt8) := (parseLoop s []).map pack
 
 /-! ### String (uuid.go:230-244) -/
 
-def hexDigit (n : Nat) : Char := "0123456789abcdef".toList.getD n '?'
+/-- `hexString[n]`, `hexString = "0123456789abcdef"` -/
+def hexDigit (n : Nat) : Char :=
+  ['0', '1', '2', '3', '4', '5', '6', '7', '8', '9', 'a', 'b', 'c', 'd', 'e', 'f'].getD n '?'
 
 def hexByte (b : UInt8) : List Char := [hexDigit (b.toNat / 16), hexDigit (b.toNat % 16)]
 
